@@ -56,7 +56,7 @@ let () =
           | "R", [i; v] -> Some (Model.OReal (nat_of_int (int_of_string i), dbl_of_tok v))
           | "S", [n] -> Some (Model.OSeed (z_of_string n))
           | "P", [h; sd] -> Some (Model.OParse (line_of_hex h, sd_of_tok sd))
-          | "L", rest ->
+          | ("L" | "LN"), rest ->
             let rec pairs = function
               | h :: sd :: r -> (line_of_hex h, sd_of_tok sd) :: pairs r
               | _ -> [] in
